@@ -319,6 +319,9 @@ func Ite(c, a, b *Term) *Term {
 	if a == b {
 		return a
 	}
+	if a.S != b.S {
+		panic(fmt.Sprintf("smt.Ite: sort mismatch %s vs %s", a.S, b.S))
+	}
 	if a.S.K == KBool {
 		if a.IsTrue() && b.IsFalse() {
 			return c
@@ -546,6 +549,19 @@ func bvbin(op string, a, b *Term) *Term {
 		if b.Op == "bvconst" && op == "bvashr" && b.C.Cmp(big.NewInt(int64(w))) >= 0 {
 			return SignExt(Extract(a, w-1, w-1), w-1)
 		}
+	case "bvudiv":
+		// division of zero-extended operands needs only their own width
+		if a.Op == "zero_extend" && b.Op == "zero_extend" {
+			ia, ib := a.Args[0], b.Args[0]
+			iw := ia.S.W
+			if ib.S.W > iw {
+				iw = ib.S.W
+			}
+			if iw < w {
+				x, y := ZeroExt(ia, iw-ia.S.W), ZeroExt(ib, iw-ib.S.W)
+				return Ite(Eq(y, BVU(0, iw)), BVC(mask(w), w), ZeroExt(bvbin("bvudiv", x, y), w-iw))
+			}
+		}
 	case "bvmul":
 		if zero(a) || zero(b) {
 			return BVU(0, w)
@@ -677,6 +693,24 @@ func Extract(a *Term, hi, lo int) *Term {
 			return SignExt(Extract(a.Args[0], iw-1, iw-1), hi-lo)
 		}
 		return SignExt(Extract(a.Args[0], iw-1, lo), hi-iw+1)
+	}
+	// the low bits of a sum/product depend only on the low bits of the
+	// operands; bitwise operators commute with extraction anywhere
+	switch a.Op {
+	case "bvmul", "bvadd", "bvsub":
+		if lo == 0 {
+			return bvbin(a.Op, Extract(a.Args[0], hi, 0), Extract(a.Args[1], hi, 0))
+		}
+	case "bvand", "bvor", "bvxor":
+		return bvbin(a.Op, Extract(a.Args[0], hi, lo), Extract(a.Args[1], hi, lo))
+	case "bvnot":
+		return BVNot(Extract(a.Args[0], hi, lo))
+	case "bvneg":
+		if lo == 0 {
+			return BVNeg(Extract(a.Args[0], hi, 0))
+		}
+	case "ite":
+		return Ite(a.Args[0], Extract(a.Args[1], hi, lo), Extract(a.Args[2], hi, lo))
 	}
 	return mk("extract", BV(hi-lo+1), "", nil, [2]int{hi, lo}, a)
 }
